@@ -261,11 +261,22 @@ func play(sc *scen) (tr []string) {
 			})
 		}
 		var seen []int
-		b.Func(vints).Apply(func(a int, s string, va ...int) int { seen = append([]int{a, len(s)}, va...); return 77 })
-		for i := 0; i < 3; i++ {
-			va := [][]int{nil, {1}, {1, 2, 3}}[int(code(sc, i)%3+3)%3]
+		var shape string
+		b.Func(vints).Apply(func(a int, s string, va ...int) int {
+			seen = append([]int{a, len(s)}, va...)
+			// the replacement sees exactly the caller's slice: nil-ness, capacity, and the same backing array
+			shape = fmt.Sprintf("nil=%v len=%d cap=%d", va == nil, len(va), cap(va))
+			if len(va) > 0 {
+				va[0] += 1000
+			}
+			return 77
+		})
+		for i := 0; i < 4; i++ {
+			backing := make([]int, 3, 8)
+			copy(backing, []int{1, 2, 3})
+			va := [][]int{nil, {1}, backing, backing[:0], {}}[int(code(sc, i)%5+5)%5]
 			call("vints", func() []reflect.Value { return []reflect.Value{reflect.ValueOf(vints(int(code(sc, i)%100), "s", va...))} })
-			say("  callback saw %v", seen)
+			say("  callback saw %v, %s; the caller's slice afterwards %v", seen, shape, va)
 		}
 	case "method":
 		t := corpus.Types[sc.K%len(corpus.Types)]
